@@ -80,6 +80,9 @@ func (s *Sorted[T]) RemoveAt(index int) {
 
 func (s *Sorted[T]) Remove(value T) int {
 	index := s.Index(value)
+	if index == -1 {
+		return -1
+	}
 	Remove(&s.slice, index)
 	return index
 }
